@@ -239,8 +239,8 @@ def run(tier, pid="X07"):
         "behaviours = sequences of try_import(name[, alternative][, error_callback]) over 26 dotted names of a synthetic "
         "package tree (modules / sub-packages that exist, are missing, raise ImportError inside, lack a dependency, raise "
         "ValueError inside; attributes present, missing, None, nested; an import loop; a missing top-level package), the "
-        "set of loaded modules carrying over between calls; every sequence of 2 calls (TLC, exhaustive) and random "
-        "sequences of 6 (tlc -simulate) replayed against the real try_import on the real tree on disk. Non-trivial = "
+        "set of loaded modules carrying over between calls; every single call with every argument combination, every sequence of 2 calls with an alternative "
+        "(TLC, exhaustive) and random sequences of 6 (tlc -simulate) replayed against the real try_import on the real tree on disk. Non-trivial = "
         "anything but a plain importable module as the only call; distinct by call sequence.",
     )
     rep.assume("try_imports does not exist in this tree (NEWS: removed); only try_import is checked")
@@ -248,7 +248,7 @@ def run(tier, pid="X07"):
     rep.assume("the model of Python's import system (parents first, bodies run once, failed modules not kept) is validated against sys.modules and an execution log at every call; a mismatch there is reported as DRIFT, not as a violation")
     world = World()
     try:
-        jobs = [("ti_mc.cfg", {}, False), ("ti_exp.cfg", {}, True)]
+        jobs = [("ti_mc.cfg", {}, False), ("ti_exp1.cfg", {}, True), ("ti_exp.cfg", {}, True)]
         nsim = 100 if tier == "quick" else 3000
         jobs.append(("ti_sim.cfg", dict(simulate=dict(num=nsim, depth=8), seed=rep.seed + 1), True))
         for cfg, kw, export in jobs:
